@@ -3,4 +3,4 @@ export VERIF=/verif
 export GO124=/root/go/pkg/mod/golang.org/toolchain@v0.0.1-go1.24.0.linux-amd64
 export PATH=$GO124/bin:$PATH
 export GOTOOLCHAIN=local GOFLAGS=-mod=mod GOPROXY=off GONOSUMDB=* GONOSUMCHECK=1 GOFLAGS=-mod=mod
-export GOCACHE=/verif/build/gocache
+export GOCACHE=${VERIF_GOCACHE:-${VERIF_BUILD:-/verif/build}/gocache}
